@@ -299,7 +299,7 @@ package operator
 // What is still to do agrees with the requested placement, and every peer that is not the subject of a pending change
 // already has its requested role (established by prepareBuild - assumed, see below - and kept by every exec step).
 //@ pure pendingRole(m peersMap, t peersMap) = forall s uint64 :: {in(m, s)} in(m, s) ==> in(t, s) && t[s] != nil && m[s].Role == t[s].Role
-//@ pure agree(c *metapb.Peer, t *metapb.Peer) = c.Role == t.Role || (c.Role == 0 && t.Role != 1)
+//@ pure agree(c *metapb.Peer, t *metapb.Peer) = c.Role == t.Role || (leaderRole(c) && t.Role != 1)
 //@ pure settled(b *Builder) = b.targetPeers != nil && pendingRole(b.toAdd, b.targetPeers) && pendingRole(b.toPromote, b.targetPeers) && pendingRole(b.toDemote, b.targetPeers) && (forall s uint64 :: {in(b.currentPeers, s)} in(b.currentPeers, s) && !in(b.toAdd, s) && !in(b.toRemove, s) && !in(b.toPromote, s) && !in(b.toDemote, s) ==> in(b.targetPeers, s) && b.targetPeers[s] != nil && agree(b.currentPeers[s], b.targetPeers[s]))
 // A store with a pending promotion still holds its learner (so it is not yet a leader candidate) and is not scheduled for
 // removal; what a pending demotion installs is a learner.
@@ -348,13 +348,14 @@ package operator
 //@ pure demoteSrc(b *Builder) = forall s uint64 :: {in(b.toDemote, s)} in(b.toDemote, s) ==> b.toDemote[s].Role == 1
 //@ pure workMaps(b *Builder) = wfPM(b.toAdd) && wfPM(b.toRemove) && wfPM(b.toPromote) && wfPM(b.toDemote) && removeSrc(b) && promoteSrc(b) && demoteSrc(b) && pendingRole(b.toAdd, b.targetPeers) && pendingRole(b.toPromote, b.targetPeers) && pendingRole(b.toDemote, b.targetPeers)
 //@ pure freshMaps(b *Builder) = b.toAdd != b.toRemove && b.toAdd != b.toPromote && b.toAdd != b.toDemote && b.toRemove != b.toPromote && b.toRemove != b.toDemote && b.toPromote != b.toDemote && b.originPeers != b.toAdd && b.originPeers != b.toRemove && b.originPeers != b.toPromote && b.originPeers != b.toDemote && b.targetPeers != b.toAdd && b.targetPeers != b.toRemove && b.targetPeers != b.toPromote && b.targetPeers != b.toDemote
-// The origin region is not in a joint state (NewBuilder refuses such regions unless told otherwise): roles are Voter or Learner.
-//@ pure plainRoles(m peersMap) = forall s uint64 :: {in(m, s)} in(m, s) ==> m[s].Role == 0 || m[s].Role == 1
+// The origin region is not in a joint state (NewBuilder refuses such regions unless told otherwise): no role is
+// IncomingVoter or DemotingVoter.
+//@ pure plainRolesU(m peersMap) = forall s uint64 :: {in(m, s)} in(m, s) ==> m[s].Role != 2 && m[s].Role != 3
 // Every origin peer that is in no work map already has (a role that agrees with) its requested role.
 //@ pure originSettled(b *Builder) = forall s uint64 :: {in(b.originPeers, s)} in(b.originPeers, s) && !in(b.toRemove, s) && !in(b.toPromote, s) && !in(b.toDemote, s) ==> in(b.targetPeers, s) && b.targetPeers[s] != nil && agree(b.originPeers[s], b.targetPeers[s])
 //@ func (*Builder).prepareBuild
 //@   props C08
-//@   requires b != nil && b.cluster != nil && wfPM(b.originPeers) && wfPM(b.targetPeers) && allocated(b.originPeers) && allocated(b.targetPeers) && plainRoles(b.originPeers)
+//@   requires b != nil && b.cluster != nil && wfPM(b.originPeers) && wfPM(b.targetPeers) && allocated(b.originPeers) && allocated(b.targetPeers) && plainRolesU(b.originPeers)
 //@   ensures [work-maps-well-formed-and-distinct] r1 == nil ==> bInv(b) && wfPM(b.targetPeers) && b.targetPeers != b.currentPeers && b.targetPeers != b.toAdd && b.targetPeers != b.toRemove && b.targetPeers != b.toPromote && b.targetPeers != b.toDemote
 //@   ensures [pending-changes-carry-the-requested-role] r1 == nil ==> pendingRole(b.toAdd, b.targetPeers) && pendingRole(b.toPromote, b.targetPeers) && pendingRole(b.toDemote, b.targetPeers)
 //@   ensures [same-cluster-view] b.cluster == old(b.cluster)
@@ -380,5 +381,50 @@ package operator
 //@   modifies nothing
 //@ func (*Builder).Build
 //@   props C08
-//@   requires b != nil && b.cluster != nil && wfPM(b.originPeers) && wfPM(b.targetPeers) && allocated(b.originPeers) && allocated(b.targetPeers) && plainRoles(b.originPeers)
+//@   requires b != nil && b.cluster != nil && builderOK(b) && !b.skipOriginJointStateCheck
 //@   modifies *
+
+// The builder's public API keeps the data invariant that Build needs: as long as no error has been recorded, origin and
+// requested placement are well-formed store-indexed maps, and (unless the caller opted out) no origin peer is in a
+// joint state.  NewBuilder establishes it from any region; every setter preserves it; Build consumes it.
+//@ pure builderOK(b *Builder) = b.err == nil ==> wfPM(b.originPeers) && wfPM(b.targetPeers) && allocated(b.originPeers) && allocated(b.targetPeers) && (b.skipOriginJointStateCheck || plainRolesU(b.originPeers))
+//@ func NewBuilder
+//@   props C08
+//@   requires region != nil && region.meta != nil && (forall i :: {region.meta.Peers[i]} 0 <= i && i < len(region.meta.Peers) ==> allocated(region.meta.Peers[i]))
+//@   ensures [invariant-established] result != nil && builderOK(result)
+//@   loop 2 invariant originPeers != nil && wfPM(originPeers) && (forall s uint64 :: {in(originPeers, s)} in(originPeers, s) ==> exists i :: 0 <= i && i <= rangeindex && originPeers[s] == region.meta.Peers[i])
+//@   loop 2 modifies originPeers[*]
+//@   loop 3 modifies unhealthyPeers[*]
+//@   loop 4 modifies unhealthyPeers[*]
+//@   modifies *
+//@ func (*Builder).AddPeer
+//@   props C08
+//@   requires b != nil && builderOK(b) && allocated(peer)
+//@   ensures [invariant-kept] result == b && builderOK(b)
+//@   modifies b.err, b.targetPeers[*]
+//@ func (*Builder).RemovePeer
+//@   props C08
+//@   requires b != nil && builderOK(b)
+//@   ensures [invariant-kept] result == b && builderOK(b)
+//@   modifies b.err, b.targetPeers[*]
+//@ func (*Builder).PromoteLearner
+//@   props C08
+//@   requires b != nil && builderOK(b)
+//@   ensures [invariant-kept] result == b && builderOK(b)
+//@   modifies b.err, b.targetPeers[*]
+//@ func (*Builder).DemoteVoter
+//@   props C08
+//@   requires b != nil && builderOK(b)
+//@   ensures [invariant-kept] result == b && builderOK(b)
+//@   modifies b.err, b.targetPeers[*]
+//@ func (*Builder).SetLeader
+//@   props C08
+//@   requires b != nil && builderOK(b)
+//@   ensures [invariant-kept] result == b && builderOK(b)
+//@   modifies b.err, b.targetLeaderStoreID
+//@ func (*Builder).SetPeers
+//@   props C08
+//@   requires b != nil && builderOK(b) && (forall s uint64 :: {in(peers, s)} in(peers, s) ==> allocated(peers[s]))
+//@   ensures [invariant-kept] result == b && builderOK(b)
+//@   loop 1 invariant forall s uint64 :: {visited(peers, s)} visited(peers, s) && in(peers, s) ==> s != 0 && peers[s] != nil && peers[s].StoreId == s
+//@   modifies b.err, b.targetPeers, b.targetLeaderStoreID
